@@ -14,7 +14,7 @@ func init() {
 		Title:       "Connection files go only to logged-in sessions and bind user, host and address",
 		DesignRef:   "DESIGN.md §3 C12",
 		Technique:   "who-may-reference inventory of the download handler + edge-cut guarded reachability (authenticated gate, host policy with flag idiom via phi threading) + checked must-pass chain on QueryInfo + SSA value identity of host/user/token between policy, generator and file",
-		LevelText:   "Static: the token generators are reachable only over an Authenticated()==true edge (router wrapper redirecting otherwise, or the in-handler test); getHost returns only an element of the configured list, or a value proved equal to one on the return's path, or the query value under 'any'; in 'signed' mode the value is QueryInfo's result whose acceptance requires HS256 parse, MAC under QuerySigningKey, and issuer/expiry validation; the host handed to the token generator is the very value written to the file's full address, the token written is the generator's result, the gateway host comes from the configured address, the user handed over is the session's name (first part of a split at '@' under domain splitting); the generator's claims are those parameters plus the context's clientIp and access token; the placeholder substitution at issuance equals the one in the tunnel's host check.",
+		LevelText:   "Static: the token generators are reachable only over an Authenticated()==true edge (router wrapper redirecting otherwise, or the in-handler test); getHost returns only an element of the configured list, or a value proved equal to one on the return's path, or the query value under 'any'; in 'signed' mode the value is QueryInfo's result whose acceptance requires HS256 parse, MAC under QuerySigningKey, and issuer/expiry validation; the host handed to the token generator is the very value written to the file's full address, the token written is the generator's result, the gateway host comes from the configured address, the user handed over is the session's name (first part of a split at '@' under domain splitting); the generator's claims are those parameters plus the context's clientIp and access token; the placeholder substitution at issuance equals the one in the tunnel's host check. The identity the handler reads user and client address from is decoded for that request (no cached or shared identity object).",
 		LevelNote:   "Trusted: go-jose for the query token, gorilla mux dispatch. Not decided: whether IdP 'sub' equals the ID-token user-name claim (so whether an issued file is accepted end to end for placeholder hosts), random host choice.",
 		Explanation: "C12/gate inventories every reference to Handler.HandleDownload in main and checks the Authenticated wrapper's guard and the in-handler guard. C12/host-policy cuts equality edges in getHost per accepting return. C12/query-token is the chain on security.QueryInfo. C12/bindings follows values in HandleDownload. C12/claims re-checks GeneratePAAToken's claims. C12/issue-verify-agreement compares the substitution call of issuance and verification.",
 		Assumptions: []string{"the redirect branch of the wrapper never calls the wrapped handler (checked by the guard)"},
